@@ -1,8 +1,9 @@
 (* C19 — output payloads carry every deliverable event of a batch exactly once, well-formed.
    Only statements, each closed by [exact]; proofs live in Proofs/Payload.v.
    Modelled sinks: elasticsearch (repaired: index values escaped), file, http (json and raw encoder,
-   repaired: a missing field keeps the buffer), kafka, splunk (no copy_fields), gelf (framing; the
-   GELF rewrite of the event is an oracle).  loki is not modelled. *)
+   repaired: a missing field keeps the buffer), kafka, splunk (incl. copy_fields: the envelope of one
+   event as a function of that event and the configuration), gelf (framing; the GELF rewrite of the
+   event is an oracle).  loki: the envelope around oracle pieces. *)
 From Verif Require Import Base.Sx Base.GoSem Model.Payload Proofs.Payload.
 Local Open Scope Z_scope.
 
@@ -59,13 +60,76 @@ Theorem c19_file_frames :
 Proof. exact file_out_spec. Qed.
 Print Assumptions c19_file_frames.
 
+(* splunk without copy_fields: a row of {"event":<the event>} objects *)
 Theorem c19_splunk_frames :
   forall batch prev script,
-  exists a, splunk_out batch prev script = Ok a
+  exists a, splunk_out [] batch prev script = Ok a
     /\ at_buf a = concat (map frame_splunk (deliverable batch))
     /\ map rq_body (at_reqs a) = [concat (map frame_splunk (deliverable batch))].
-Proof. exact splunk_out_spec. Qed.
+Proof. exact splunk_out_nocopy_spec. Qed.
 Print Assumptions c19_splunk_frames.
+
+(* splunk with any copy_fields configuration: for every previous buffer content and every answer the
+   one request carries, in batch order, one envelope per deliverable event *)
+Theorem c19_splunk_envelopes :
+  forall cfg batch prev script,
+  exists a, splunk_out cfg batch prev script = Ok a
+    /\ at_buf a = concat (map (envelope cfg) (deliverable batch))
+    /\ map rq_body (at_reqs a) = [concat (map (envelope cfg) (deliverable batch))].
+Proof. exact splunk_out_spec. Qed.
+Print Assumptions c19_splunk_envelopes.
+
+(* envelope independence: inside the request of ANY batch that contains the deliverable event e — any
+   events before it, any after it, any buffer history, any answers — the bytes at e's place are
+   [envelope cfg e], a function of e and the configuration alone *)
+Theorem c19_splunk_envelope_independent :
+  forall cfg e pre post prev script,
+  is_parent e = false ->
+  exists a, splunk_out cfg (pre ++ e :: post) prev script = Ok a
+    /\ map rq_body (at_reqs a) = [at_buf a]
+    /\ at_buf a = splunk_payload cfg pre ++ envelope cfg e ++ splunk_payload cfg post
+    /\ slice (at_buf a) (len (splunk_payload cfg pre)) (len (splunk_payload cfg pre) + len (envelope cfg e))
+       = Ok (envelope cfg e).
+Proof. exact splunk_envelope_independent. Qed.
+Print Assumptions c19_splunk_envelope_independent.
+
+(* no cross-event leakage: permuting, replacing or removing the OTHER events of the batch (and changing
+   the buffer history or the answers) does not change the bytes sent for e *)
+Theorem c19_splunk_no_cross_event_leak :
+  forall cfg e pre1 post1 pre2 post2 p1 s1 p2 s2,
+  is_parent e = false ->
+  exists a1 a2,
+    splunk_out cfg (pre1 ++ e :: post1) p1 s1 = Ok a1 /\ splunk_out cfg (pre2 ++ e :: post2) p2 s2 = Ok a2
+    /\ slice (at_buf a1) (len (splunk_payload cfg pre1)) (len (splunk_payload cfg pre1) + len (envelope cfg e))
+       = slice (at_buf a2) (len (splunk_payload cfg pre2)) (len (splunk_payload cfg pre2) + len (envelope cfg e))
+    /\ slice (at_buf a1) (len (splunk_payload cfg pre1)) (len (splunk_payload cfg pre1) + len (envelope cfg e))
+       = Ok (envelope cfg e).
+Proof. exact splunk_no_cross_event_leak. Qed.
+Print Assumptions c19_splunk_no_cross_event_leak.
+
+(* the envelope reads nothing of an event but its encoding and the values of its own source fields *)
+Theorem c19_splunk_envelope_local :
+  forall cfg e1 e2, enc e1 = enc e2 -> ev_copy e1 = ev_copy e2 -> envelope cfg e1 = envelope cfg e2.
+Proof. exact envelope_local. Qed.
+Print Assumptions c19_splunk_envelope_local.
+
+(* an event without any of the configured source fields gets the bare {"event":...} envelope,
+   whatever the configuration and whatever its neighbours carry *)
+Theorem c19_splunk_envelope_no_sources :
+  forall cfg e, Forall (fun v => v = None) (ev_copy e) -> envelope cfg e = frame_splunk e.
+Proof. exact envelope_no_sources. Qed.
+Print Assumptions c19_splunk_envelope_no_sources.
+
+(* every configuration the exchange glue accepts is as Start() leaves it (cp_ok), and then every
+   envelope begins with {"event":<the event's encoding>, followed by the closing brace or by a comma
+   and the copied fields: copy_fields never displaces or rewrites the event *)
+Theorem c19_splunk_envelope_carries_event :
+  (forall s c, cp_entry_of_sx s = Some c -> cp_ok c)
+  /\ forall cfg e, Forall cp_ok cfg ->
+     exists tail, envelope cfg e = SPLUNK_PRE ++ enc e ++ tail
+       /\ (tail = [125]%N \/ exists t, tail = 44%N :: t).
+Proof. exact (conj cp_entry_of_sx_ok envelope_carries_event). Qed.
+Print Assumptions c19_splunk_envelope_carries_event.
 
 Theorem c19_gelf_frames :
   forall batch prev script,
@@ -139,8 +203,8 @@ Theorem c19_payload_independent_of_prev_buf :
       http_out raw sp batch p1 s1 = Ok a1 -> http_out raw sp batch p2 s2 = Ok a2 -> at_buf a1 = at_buf a2)
   /\ (forall p1 s1 p2 s2 a1 a2,
       file_out batch p1 s1 = Ok a1 -> file_out batch p2 s2 = Ok a2 -> at_buf a1 = at_buf a2)
-  /\ (forall p1 s1 p2 s2 a1 a2,
-      splunk_out batch p1 s1 = Ok a1 -> splunk_out batch p2 s2 = Ok a2 -> at_buf a1 = at_buf a2)
+  /\ (forall cfg p1 s1 p2 s2 a1 a2,
+      splunk_out cfg batch p1 s1 = Ok a1 -> splunk_out cfg batch p2 s2 = Ok a2 -> at_buf a1 = at_buf a2)
   /\ (forall p1 s1 p2 s2 a1 a2,
       gelf_out batch p1 s1 = Ok a1 -> gelf_out batch p2 s2 = Ok a2 -> at_buf a1 = at_buf a2)
   /\ (forall c p1 p2, len (deliverable batch) <= k_batch_size c -> kafka_build c batch p1 = kafka_build c batch p2).
@@ -181,3 +245,17 @@ Example c19_nonvacuous :
       | Ok a => (map (fun q => (rq_l q, rq_r q, rq_status q)) (at_reqs a), at_err a, at_ret a)
       | _ => ([], true, 9) end) = ([(0, 2, 413); (0, 1, 200); (1, 2, 413)], true, 0).
 Proof. split; [exact ex_hyps_ok|repeat split; vm_compute; reflexivity]. Qed.
+
+(* non-vacuity of the splunk theorems: the documented configuration ts -> time, service -> fields.service_name
+   (plus an entry to event.x, which Start() drops) on the batch [first with ts and service; second
+   without either; third with service only]: the second envelope is bare although its neighbours carry
+   the copied fields *)
+Example c19_splunk_nonvacuous :
+  Forall cp_ok ex_scfg
+  /\ envelope ex_scfg ex_s1 = [123; 34; 101; 118; 101; 110; 116; 34; 58; 123; 34; 109; 115; 103; 34; 58; 34; 102; 105; 114; 115; 116; 34; 44; 34; 116; 115; 34; 58; 34; 49; 55; 34; 44; 34; 115; 101; 114; 118; 105; 99; 101; 34; 58; 34; 97; 34; 125; 44; 34; 116; 105; 109; 101; 34; 58; 34; 49; 55; 34; 44; 34; 102; 105; 101; 108; 100; 115; 34; 58; 123; 34; 115; 101; 114; 118; 105; 99; 101; 95; 110; 97; 109; 101; 34; 58; 34; 97; 34; 125; 125]%N
+  /\ envelope ex_scfg ex_s2 = [123; 34; 101; 118; 101; 110; 116; 34; 58; 123; 34; 109; 115; 103; 34; 58; 34; 115; 101; 99; 111; 110; 100; 34; 125; 125]%N
+  /\ envelope ex_scfg ex_s3 = [123; 34; 101; 118; 101; 110; 116; 34; 58; 123; 34; 109; 115; 103; 34; 58; 34; 116; 104; 105; 114; 100; 34; 44; 34; 115; 101; 114; 118; 105; 99; 101; 34; 58; 34; 99; 34; 125; 44; 34; 102; 105; 101; 108; 100; 115; 34; 58; 123; 34; 115; 101; 114; 118; 105; 99; 101; 95; 110; 97; 109; 101; 34; 58; 34; 99; 34; 125; 125]%N
+  /\ (match splunk_out ex_scfg [ex_s1; ex_s2; ex_s3] [1; 2; 3]%N [500] with
+      | Ok a => (map rq_body (at_reqs a), at_ret a) | _ => ([], 9) end)
+     = ([envelope ex_scfg ex_s1 ++ envelope ex_scfg ex_s2 ++ envelope ex_scfg ex_s3], 1).
+Proof. split; [exact ex_scfg_ok|repeat split; vm_compute; reflexivity]. Qed.
